@@ -17,7 +17,7 @@ if [ -f $D/c_patch.diff ]; then
     so=$(ls /repo/${f%.c}.cpython-312-x86_64-linux-gnu.so); cp $so /tmp/seed_detect_$(basename $so).orig
     REBUILT="$REBUILT $f"
   done
-  patch -p1 -d /repo < $D/c_patch.diff || { echo "c patch failed"; }
+  patch -p$(grep -m1 '^+++ ' $D/c_patch.diff | grep -q '^+++ b/' && echo 1 || echo 0) -d /repo < $D/c_patch.diff || { echo "c patch failed"; }
   for f in $REBUILT; do
     (cd /repo/$(dirname $f) && gcc -shared -fPIC -O3 -fopenmp -w -I/root/.pyenv/versions/3.12.1/include/python3.12 -I$(/venv/bin/python -c "import numpy; print(numpy.get_include())") -I/repo -I. $(/venv/bin/python -c "import CyRK, os; d=os.path.dirname(CyRK.__file__); print(' '.join('-I'+os.path.join(d,x) for x in ('', 'cy', 'array', 'utils')))") $(basename $f) -o $(basename ${f%.c}).cpython-312-x86_64-linux-gnu.so)
   done
